@@ -1,7 +1,7 @@
 (** C49: printers used by the correspondence check only. *)
 From Coq Require Import List Arith Bool String.
 From TwLib Require Import Show.
-From C49 Require Import Model.
+From C49 Require Import Model Wrapper.
 Import ListNotations.
 Local Open Scope string_scope.
 
@@ -32,3 +32,19 @@ Fixpoint show_trace (s : st) (ls : list label) : list string :=
 
 Definition run_show (c : nat * list label) : string :=
   let '(lim, ls) := c in String.concat " " (show_trace (init lim) ls).
+
+(** ---- the reporting wrapper: per submitted call  r<body runs>:c<reports>[:T v | :F <exception class>] ---- *)
+Definition exc_name (h : how) : string :=
+  match h with HExc => "ValueError" | HSysExit => "SystemExit" | HGenExit => "GeneratorExit" | HBase => "_Cancelled"
+             | _ => "?" end.
+Definition show_report (r : report) : string := match r with RTrue => ":Tv" | RFalse h => ":F" ++ exc_name h end.
+Definition show_wrapped (c : how * cbmode) : string :=
+  let w := in_context (fst c) (snd c) in
+  "r" ++ show_nat (body_runs w) ++ ":c" ++ show_nat (List.length (reports w)) ++ String.concat "" (map show_report (reports w)).
+
+(** case = a Team schedule, or the calls submitted to a real ThreadPool *)
+Definition run_show_any (c : (nat * list label) + list (how * cbmode)) : string :=
+  match c with
+  | inl t => run_show t
+  | inr calls => String.concat " " (map show_wrapped calls)
+  end.
